@@ -138,6 +138,12 @@ def api_search(chk, n_cases):
             par = oqupy.TempoParameters(dt=dt, epsrel=eps, dkmax=None, subdiv_limit=None)
             corr = oqupy.PowerLawSD(alpha=rng.choice([0.0005, 0.001]), zeta=1, cutoff=10.0, cutoff_type="exponential", temperature=0.0)
         op = rng.choice([0.5 * sz, 0.5 * sx + 0.2 * sz, np.diag([1.0, 1.0]) * 0.3 + 0.5 * sy])
+        if it == 4:
+            # every run: strong coupling, a memory cut-off shorter than the run and a very tight tolerance: the two methods agree to
+            # a small multiple of the tolerance (1e-8 with epsrel = 1e-11): neither back-end may stop refining before the other
+            eps, n, dkmax, tau, dt = 1e-11, 12, 5, None, 0.1
+            par = oqupy.TempoParameters(dt=dt, epsrel=eps, dkmax=dkmax, subdiv_limit=None)
+            corr = oqupy.PowerLawSD(alpha=0.6, zeta=1, cutoff=3.0, cutoff_type="exponential", temperature=0.7)
         if it == 2:
             # every run: a coupling operator with genuinely complex eigenvectors that is neither symmetric nor antisymmetric
             # (conj(O) != +-O), with a Hamiltonian and an initial state that are not real either
@@ -202,7 +208,8 @@ def api_search(chk, n_cases):
         chk.search_cases += 1
         chk.count("api_" + kind)
         err = np.abs(ds - dp).max() if ds.shape == dp.shape else np.inf
-        if err > 2e3 * eps:
+        info["difference"] = float(err)
+        if err > (2e3 if eps > 1e-10 else 2e2) * eps:
             chk.fail("tempo-vs-pttempo-api", f"Tempo and PtTempo+compute_dynamics differ by {err:.2e} (epsrel {eps})", info)
         if n >= 4:
             dq = np.array(quiet(oqupy.compute_dynamics, sysm, initial_state=rho0, process_tensor=pt, start_time=start, num_steps=n - 2,
